@@ -52,9 +52,10 @@ Record cfg := mkCfg {
   c_pad : Q;        (* Span.padding *)
   c_cin : Q; c_cout : Q;   (* Span.con_in / con_out defaults *)
   c_eol : Q;        (* Span.EOL *)
-  c_rg : string -> Q  (* per RamanFiber uid: the gain estimate_raman_gain returns when it is asked without a span input
-                         power (estimated at the reference power, rounded to 2 decimals, never cached: gnpy fixes
-                         36fd5b85, d3e2700d); an input, the Raman solver is not modelled *)
+  c_rg : string -> Q  (* per RamanFiber uid: the gain estimate_raman_gain returns to add_fiber_padding, i.e. asked without
+                         a span input power (reference power, rounded to 2 decimals, never cached: gnpy fixes 36fd5b85,
+                         d3e2700d) while the fibre still has its att_in from before padding; an input, the Raman solver
+                         is not modelled *)
 }.
 Definition c_min (c : cfg) : Z := Z.max (c_padlen c) 50000.
 Definition c_target (c : cfg) : Z := Z.max (c_min c) (Z.min (c_max c) 90000).
